@@ -51,7 +51,8 @@ pub enum Sample {
 pub enum Case {
     Kd { cloud: Cloud, queries: Vec<(u16, P3, bool)>, k: usize, radius: Radius, subset: Option<(u64, u16)> },
     Poisson { cloud: Cloud, perm: u64, take: u16, radius: f64 },
-    MeshSample { spec: MeshSpec, mode: Sample },
+    /// slivers: zero-area faces [a, a, b] inserted into the face list handed to the library (uniform mode only)
+    MeshSample { spec: MeshSpec, mode: Sample, #[serde(default)] slivers: Vec<(u16, u16, u16)> },
     Hull { cloud: Cloud },
     Polygon { n: usize, radii: Vec<f64>, reverse: bool, rotate: u16, collinear: bool },
     Pivot { pts: Vec<P2>, radius: f64, cw: bool, fill: Option<f64> },
@@ -94,7 +95,7 @@ impl Property for C15 {
         vec!["Mesh::sample_uniform / sample_poisson draw from the library's thread-local RNG, which cannot be seeded from outside: those sub-checks are not a function of VERIF_SEED; the uniform-sampling oracle is statistical with fixed 6.5 sigma bounds (false-alarm probability below 1e-9 per comparison)".into()]
     }
     fn expected_labels() -> Vec<&'static str> {
-        vec!["kd2", "kd3", "partial_tree", "ties", "duplicates", "radius_exact_pair", "poisson", "sample_uniform", "sample_dense", "sample_poisson", "hull", "polygon_ccw", "polygon_cw", "pivot", "pivot_fill"]
+        vec!["kd2", "kd3", "partial_tree", "ties", "duplicates", "radius_exact_pair", "poisson", "sample_uniform", "sample_uniform_zero_area_faces", "sample_dense", "sample_poisson", "hull", "polygon_ccw", "polygon_cw", "pivot", "pivot_fill"]
     }
     fn strategy(t: Tier) -> BoxedStrategy<Case> {
         let nmax = t.pick(600, 3000);
@@ -110,7 +111,7 @@ impl Property for C15 {
             10 => (cloud(nmax), prop::collection::vec((any::<u16>(), p3(6.0), any::<bool>()), 1..8), 1usize..=64, prop_oneof![3 => unif(0.0, 1.0).prop_map(Radius::Fraction), 2 => (any::<u16>(), any::<u16>()).prop_map(|(i, j)| Radius::ExactPair(i, j)), 1 => Just(Radius::Zero)], prop::option::of((any::<u64>(), any::<u16>())))
                 .prop_map(|(cloud, queries, k, radius, subset)| Case::Kd { cloud, queries, k, radius, subset }),
             3 => (cloud(nmax), any::<u64>(), any::<u16>(), logu(-1.0, 0.5)).prop_map(|(cloud, perm, take, radius)| Case::Poisson { cloud, perm, take, radius }),
-            1 => (clean_mesh(small_mesh, 5.0), prop_oneof![2 => Just(Sample::Uniform), 1 => logu(-1.2, 0.0).prop_map(Sample::Dense), 1 => logu(-0.8, 0.0).prop_map(Sample::Poisson)]).prop_map(|(spec, mode)| Case::MeshSample { spec, mode }),
+            1 => (clean_mesh(small_mesh, 5.0), prop_oneof![2 => Just(Sample::Uniform), 1 => logu(-1.2, 0.0).prop_map(Sample::Dense), 1 => logu(-0.8, 0.0).prop_map(Sample::Poisson)], prop_oneof![3 => Just(vec![]), 1 => prop::collection::vec((any::<u16>(), any::<u16>(), any::<u16>()), 1..4)]).prop_map(|(spec, mode, slivers)| Case::MeshSample { spec, mode, slivers }),
             2 => cloud(300).prop_map(|cloud| Case::Hull { cloud }),
             2 => (3usize..60, prop::collection::vec(unif(0.3, 1.0), 60), any::<bool>(), any::<u16>(), prop::bool::weighted(0.3)).prop_map(|(n, radii, reverse, rotate, collinear)| Case::Polygon { n, radii, reverse, rotate, collinear }),
             3 => (prop::collection::vec((unif(0.0, 10.0), unif(0.0, 10.0)).prop_map(|(x, y)| [x, y]), 20..220), unif(0.6, 3.0), any::<bool>(), prop::option::of(unif(0.1, 1.0))).prop_map(|(pts, radius, cw, fill)| Case::Pivot { pts, radius, cw, fill }),
@@ -133,7 +134,7 @@ impl Property for C15 {
                     poisson::<2>(cloud, *perm, *take, *radius)
                 }
             }
-            Case::MeshSample { spec, mode } => mesh_sample(spec, mode),
+            Case::MeshSample { spec, mode, slivers } => mesh_sample(spec, mode, slivers),
             Case::Hull { cloud } => hull(cloud),
             Case::Polygon { n, radii, reverse, rotate, collinear } => polygon(*n, radii, *reverse, *rotate, *collinear),
             Case::Pivot { pts, radius, cw, fill } => pivot(pts, *radius, *cw, fill),
@@ -302,7 +303,7 @@ fn poisson<const D: usize>(cloud: &Cloud, perm: u64, take: u16, radius: f64) -> 
     cx.pass()
 }
 
-fn mesh_sample(spec: &MeshSpec, mode: &Sample) -> Verdict {
+fn mesh_sample(spec: &MeshSpec, mode: &Sample, slivers: &[(u16, u16, u16)]) -> Verdict {
     let mut cx = Ctx::new();
     let Some(bm) = spec.build() else { return Verdict::Discard("empty mesh") };
     let soup = bm.soup();
@@ -317,7 +318,22 @@ fn mesh_sample(spec: &MeshSpec, mode: &Sample) -> Verdict {
             return Verdict::Discard("degenerate face");
         }
     }
-    let mesh = bm.mesh(false);
+    // uniform sampling must give a face of zero area (a repeated vertex index) no samples and must not let it disturb
+    // the shares of the others: the library's mesh carries such faces, the harness's list of real faces does not
+    let mesh = if matches!(mode, Sample::Uniform) && !slivers.is_empty() {
+        let mut f = bm.f.clone();
+        for (pos, a, b) in slivers {
+            let (a, b) = (idx(*a, bm.v.len()) as u32, idx(*b, bm.v.len()) as u32);
+            if a != b {
+                let k = idx(*pos, f.len() + 1);
+                f.insert(k, [a, a, b]);
+            }
+        }
+        cx.label("sample_uniform_zero_area_faces");
+        engeom::Mesh::new(bm.v.clone(), f, false)
+    } else {
+        bm.mesh(false)
+    };
     let size = soup.size();
     let tol = 1e-9 * (size + soup.max_abs());
     let normals: Vec<_> = (0..nf).map(|i| { let (a, b, c) = soup.tri(i); crate::oracle::tri_normal(&a, &b, &c).unwrap() }).collect();
